@@ -38,11 +38,15 @@ FULL_ORACLE_DEPTH = 2
 RULE = (
     'BFS over ALL histories (length <= 3 quick, <= 5 thorough) of the per-document alphabet of 26-27 real operations: '
     'for c in {c0,c1}: setOptionForNode(c,"v"), removeOptionForNode(c,"v"), setOptionForNode(c,"#command.arguments"), '
-    'setOptionForNode(c,"#resourceRequest.numberThreads"), removeOptionForNode(c,"#command.arguments"), '
+    'removeOptionForNode(c,"#command.arguments"), setOptionForNode(c0,"#resourceRequest.numberThreads"), '
+    'setOptionForNode(c1,"#command", whole section: a single-segment option that rebinds a top-level field), '
     'update_component(c), delete_component(c), cached query of c on platform default and on platform P '
     '(configurationForNode when it is the active platform); set_global_variable, set_stage_variable (each stage in '
     'use), set_platform_global_variable(platform=P | default), set_platform_stage_variable(platform=P | default), '
-    'add_component(new c2), add_component(c1 again). Every layer owns a variable that no higher layer shadows '
+    'add_component(new c2), add_component(c1 again, with a description that differs from the update_component one). '
+    'The documents carry stage blueprints for default and P with nested sections the global blueprint lacks, component '
+    'options inside those sections, and interpreter components that leave expandArguments to the post-resolution '
+    'fix-up (also produced by update_component(c0)). Every layer owns a variable that no higher layer shadows '
     '(default global n, default stage m, P global pn, P stage pm, component k/v) and every component interpolates all '
     'of them, so a write to any layer is visible in the resolved configuration on every platform it applies to. '
     'A second stratum (typed values, length <= 2 quick, <= 3 thorough) extends the alphabet by 9 setters that write a '
@@ -58,9 +62,11 @@ RULE = (
     'represents it. Every transition is judged: 3 components x 2 platforms of the cached flavour against a '
     'from-scratch object (values compared with == AND typed: 2, 2.0 and True differ); entries the history left in the '
     'cache additionally get the private-copy rounds (scramble result, query, scramble, query); after histories of '
-    'length <= 2 the private-copy rounds run for every entry, followed by the two uncached flavours (raw=True; '
-    'include_default=False) for c0,c1 on the active platform and a check that scrambled results did not leak into the '
-    'description; a query operation of the history is itself judged against the description it was asked on. '
+    'length <= 2 the private-copy rounds run for every entry (this is also what compares the value served from '
+    'the cache with the value returned when it was filled), followed by the three uncached flavours (raw=True; '
+    'include_default=False; raw=True+inject_missing_fields=False) for c0,c1 on the active platform, instance() for '
+    'both platforms, and a check that neither scrambled results nor these read-only calls changed what the '
+    'description answers; a query operation of the history is itself judged against the description it was asked on. '
     'A history is non-trivial when it contains at least one mutator and at least one cached query; distinct = '
     'distinct (document, history). Excluded (grey zone): component names with regular-expression meta characters '
     'other than ".", update_component with a description whose stage/name differ from the id, writes through live '
@@ -361,6 +367,7 @@ def state_key(conc):
 # ------------------------------------------------------------------------------------------- building live objects
 _SHELLS = {}      # spec name -> (conf, initial raw)   (per process)
 _SHELL_DIGEST = {}
+_SHELL_NOTES = []
 _EXPECT = {}      # (active, description key) -> {pair: ('ok', value) | ('raised', cls)}   (per process memo)
 _EXPECT_MAX = 2000
 
@@ -388,16 +395,26 @@ def _shell(spec):
     # object is brought to the same state by the same cached queries
     warm = []
     for label in cache_labels(conc):
-        mt = re.match(r'^component:(.*):stage(\d+):(.*)$', label)
-        if mt is None:
-            raise HarnessError('unexpected cache label %r after the constructor' % label)
-        warm.append((mt.group(1), (int(mt.group(2)), mt.group(3))))
+        # which cached query produces this entry is found by trying them (the label format is the implementation's)
+        for cid, p in pairs_of(spec):
+            probe = FlowIRConcrete(copy.deepcopy(raw0), spec['active'], {})
+            try:
+                probe.get_component_configuration(cid, include_default=True, platform=p)
+            except Exception:
+                continue
+            if label in cache_labels(probe) and (p, cid) not in warm:
+                warm.append((p, cid))
+                break
     fresh = FlowIRConcrete(copy.deepcopy(raw0), spec['active'], {})
     _warm_up(fresh, warm)
-    if state_key(fresh)[0] != key0 or fresh.active_platform != conc.active_platform or conc._documents != {}:
-        raise HarnessError('a fresh FlowIRConcrete built from the constructor\'s description (cache warmed with %r) is '
-                           'not equivalent to the object the FlowIRExperimentConfiguration constructor holds (%s)'
-                           % (warm, spec['name']))
+    if state_key(fresh)[1] != state_key(conc)[1] or fresh.active_platform != conc.active_platform \
+            or conc._documents != {}:
+        raise HarnessError('a fresh FlowIRConcrete built from the constructor\'s description is not equivalent to the '
+                           'object the FlowIRExperimentConfiguration constructor holds (%s)' % spec['name'])
+    if state_key(fresh)[0] != key0:
+        # same description, but the constructor's cache content could not be reproduced with cached queries: start
+        # from the entries that could (the oracle still judges every entry of every state that is explored)
+        _SHELL_NOTES.append('the cache the constructor leaves for %s is not reproduced exactly' % spec['name'])
     _SHELLS[spec['name']] = (conf, raw0, warm)
     _SHELL_DIGEST[spec['name']] = digest(canon_obj(raw0))
     return conf, raw0, warm
@@ -856,6 +873,8 @@ def run(ctx):
         ctx.fail(f['case'], f['why'], f['observed'], sig=f['sig'])
     ctx.count('failing_observations_total', total)
     ctx.count('failing_observations_of_an_already_represented_class', total - len(kept))
+    for n in _SHELL_NOTES:
+        ctx.note('NOTE: ' + n)
 
 
 def replay(ctx, case):
